@@ -1,21 +1,33 @@
 // C30 -- runs the REAL tfel::system::ProcessManager / SignalManager (compiled from /repo's working tree) on commands whose
-// way of ending is known, and records every waitpid / fork they make and every use of the global mutexes
-// `processesAccess` and `callbacksAccess`.
+// way of ending is known, and records every waitpid / fork they make, every use of the global mutexes
+// `processesAccess` (P) and `callbacksAccess` (C), every entry into / return from the signal handler, every
+// registration / removal / call / deletion of a SignalHandler and the life of every ProcessManager.
 //
-// No source hook: waitpid, fork, pthread_mutex_lock/unlock are redirected at link time (-Wl,--wrap=...).  The waitpid
-// wrapper is also the schedule control: a blocking waitpid (the one of ProcessManager::wait) can be held back until the
-// SIGCHLD handler has reaped the child and released its mutex ("handler-first": exactly the interleaving between the
-// isRunning test and waitpid), or for a random time.  When the real waitpid fails, POSIX leaves the status word
-// unspecified (the code passes an uninitialised int): the wrapper may store a chosen word there ("poison") so that the
-// consequence is reproducible; with poison `none` the word is left as the code provided it.
+// No source hook: waitpid, fork, pthread_mutex_lock/unlock, sigaction and the two member functions
+// SignalManager::registerHandler(int,SignalHandler*,struct sigaction&) / SignalManager::removeHandler(size_t) are
+// redirected at link time (-Wl,--wrap=...).
+//  * The waitpid wrapper is the schedule control of the exit-status scenarios: a blocking waitpid (the one of
+//    ProcessManager::wait) can be held back until the SIGCHLD handler has reaped the child and released its mutex
+//    ("handler-first"), or for a random time.  When the real waitpid fails, POSIX leaves the status word unspecified: the
+//    wrapper may store a chosen word there ("poison"); with poison `none` the word is left as the code provided it.
+//  * registerHandler is given a proxy of the handler (it logs the calls and forwards them; when the code deletes it, it
+//    deletes the real handler and leaves a tombstone in its storage which only logs): a call of a deleted handler, or
+//    of the handler of a destroyed manager, is an event of the log instead of a crash.  C30_NOPROXY=1 disables this (for
+//    runs under AddressSanitizer / ThreadSanitizer, which must see the real accesses).
+//  * The mutex wrappers know the owner of P and C: a thread that locks a mutex it already holds (the signal handler
+//    interrupted the holder) is logged (SELFLOCK) and the process leaves with status 96 instead of hanging.
 //
 // usage: driver --child <ms> <code | -sig>          helper used as the command: sleeps, then exits / kills itself
 //        driver  (scenario on stdin)
 //   threads N                              N threads, each with its own ProcessManager (all built first, destroyed last)
-//   seed S
-//   cmd <thread> <code|-sig> <ms> <none|handler-first|random> <none|exit0|exit3|sig9|unknown|stopped>
+//   cmd <thread> <code|-sig> <ms> <none|handler-first|random|interrupted> <none|exit0|exit3|sig9|unknown|stopped>
 //   churn K                                (with threads): each command gets a fresh ProcessManager, as tfel-check does
-// stdout: log lines "<tid> <KIND> <a> <b> <c>".
+//   storm P | storm C                      every acquisition of P (resp. C) outside a signal handler is followed by a
+//                                          SIGCHLD sent to the acquiring thread
+//   lifetime N                             N rounds: thread 0 is in treatAction(SIGCHLD) while thread 1 destroys its manager
+//   stale                                  a manager (stopOnSignals(true)) is built and destroyed, then SIGTERM is raised
+//   terminate                              SIGTERM raised while a manager has a running child
+// stdout: log lines "<tid> <KIND> <a> <b> <c>" (also kept in the file $C30_LOG, which survives a crash).
 #include <atomic>
 #include <cerrno>
 #include <csignal>
@@ -25,47 +37,83 @@
 #include <iostream>
 #include <memory>
 #include <mutex>
+#include <new>
 #include <sstream>
 #include <string>
 #include <thread>
 #include <vector>
 #include <pthread.h>
+#include <sys/mman.h>
+#include <sys/prctl.h>
+#include <sys/time.h>
 #include <sys/types.h>
 #include <sys/wait.h>
 #include <time.h>
 #include <unistd.h>
 #include <fcntl.h>
 #include "TFEL/System/SystemError.hxx"
+#include "TFEL/System/SignalHandler.hxx"
 #include "TFEL/System/ProcessManager.hxx"
 
-extern std::mutex processesAccess;  // src/System/ProcessManager.cxx
-extern std::mutex callbacksAccess;  // src/System/SignalManager.cxx
+// the two global mutexes of src/System/ProcessManager.cxx and src/System/SignalManager.cxx (std::mutex or
+// std::recursive_mutex: in both cases the object starts with the pthread_mutex_t)
+extern pthread_mutex_t c30_processesAccess __asm__("processesAccess");
+extern pthread_mutex_t c30_callbacksAccess __asm__("callbacksAccess");
+
+#define REGISTER_HANDLER _ZN4tfel6system13SignalManager15registerHandlerEiPNS0_13SignalHandlerER9sigaction
+#define REMOVE_HANDLER _ZN4tfel6system13SignalManager13removeHandlerEm
+#define WRAP_(x) __wrap_##x
+#define REAL_(x) __real_##x
+#define WRAP(x) WRAP_(x)
+#define REAL(x) REAL_(x)
 
 extern "C" {
 pid_t __real_waitpid(pid_t, int*, int);
 pid_t __real_fork(void);
 int __real_pthread_mutex_lock(pthread_mutex_t*);
 int __real_pthread_mutex_unlock(pthread_mutex_t*);
+int __real_sigaction(int, const struct sigaction*, struct sigaction*);
+std::size_t REAL(REGISTER_HANDLER)(void*, int, tfel::system::SignalHandler*, struct sigaction*);
+void REAL(REMOVE_HANDLER)(void*, std::size_t);
 }
 
-enum Kind { EXEC_CALL, EXEC_RET, FORK, WNOHANG_RET, WAITPID_ENTER, WAITPID_RET, PLOCK, PUNLOCK };
-static const char* const kind_names[] = {"EXEC_CALL", "EXEC_RET", "FORK", "WNOHANG_RET", "WAITPID_ENTER", "WAITPID_RET",
-                                         "PLOCK", "PUNLOCK"};
+enum Kind {
+  EXEC_CALL, EXEC_RET, FORK, WNOHANG_RET, WAITPID_ENTER, WAITPID_RET, PLOCK, PUNLOCK,
+  PWANT, CWANT, CLOCK, CUNLOCK, SIG_ENTER, SIG_RETURN, REG_CALL, REG_RET, REM_CALL, REM_RET,
+  HEXEC_BEGIN, HEXEC_END, HEXEC_DELETED, HEXEC_DEAD, HDELETE, CTOR_BEGIN, CTOR_END, DTOR_BEGIN, DTOR_END,
+  SELFLOCK, NOTE, SIG_DEFERRED
+};
+static const char* const kind_names[] = {
+    "EXEC_CALL", "EXEC_RET", "FORK", "WNOHANG_RET", "WAITPID_ENTER", "WAITPID_RET", "PLOCK", "PUNLOCK",
+    "PWANT", "CWANT", "CLOCK", "CUNLOCK", "SIG_ENTER", "SIG_RETURN", "REG_CALL", "REG_RET", "REM_CALL", "REM_RET",
+    "HEXEC_BEGIN", "HEXEC_END", "HEXEC_DELETED", "HEXEC_DEAD", "HDELETE", "CTOR_BEGIN", "CTOR_END", "DTOR_BEGIN", "DTOR_END",
+    "SELFLOCK", "NOTE", "SIG_DEFERRED"};
 struct Event {
   int tid, kind;
   long a, b, c;
 };
 static constexpr long LOGMAX = 1L << 20;
-static Event* evlog = nullptr;
-static std::atomic<long> nlog{0};
+struct Log {
+  std::atomic<long> n;
+  long pad[3];
+  Event ev[LOGMAX];
+};
+static Log* evlog = nullptr;
 static thread_local int me = 0;
-static pthread_mutex_t* pmutex = nullptr;
-static pthread_mutex_t* cmutex = nullptr;
+static thread_local int hdepth = 0;          // > 0: this thread is inside the signal handler
+static thread_local int in_reg = 0;          // inside SignalManager::registerHandler
+static thread_local int in_rem = 0;          // inside SignalManager::removeHandler
+static thread_local int cur_mgr = -1;        // manager being built by this thread
+static pthread_mutex_t* const pmutex = &c30_processesAccess;
+static pthread_mutex_t* const cmutex = &c30_callbacksAccess;
 static long callbacks_delay_us = 0;
+static bool noproxy = false;
+static int storm = 0;                        // 1: P, 2: C
+static std::atomic<bool> dumped{false};
 
 // per-thread command being executed (read by the wrappers running in that thread)
 struct Cur {
-  int delay = 0;   // 0 none, 1 handler-first, 2 random
+  int delay = 0;   // 0 none, 1 handler-first, 2 random, 3 interrupted once
   int poison = 0;  // 0 none, 1 exit0, 2 exit3, 3 sig9, 4 unknown, 5 stopped
   unsigned long long rng = 88172645463325252ULL;
 };
@@ -77,8 +125,18 @@ static std::atomic<int> handler_done[NSLOT];
 static thread_local int pending_done_pid = 0;  // handler of this thread reaped that pid and still holds the mutex
 
 static void logev(int kind, long a = 0, long b = 0, long c = 0) {
-  const long i = nlog.fetch_add(1);
-  if (i < LOGMAX) evlog[i] = Event{me, kind + 1, a, b, c};
+  const long i = evlog->n.fetch_add(1);
+  if (i < LOGMAX) evlog->ev[i] = Event{me, kind + 1, a, b, c};
+}
+static void dump_log() {
+  if (dumped.exchange(true)) return;
+  const long n = evlog->n.load();
+  for (long i = 0; i < n && i < LOGMAX; ++i) {
+    const Event& e = evlog->ev[i];
+    if (e.kind <= 0) continue;
+    std::printf("%d %s %ld %ld %ld\n", e.tid, kind_names[e.kind - 1], e.a, e.b, e.c);
+  }
+  std::fflush(stdout);
 }
 static void sleep_us(long us) {
   if (us <= 0) return;
@@ -94,9 +152,151 @@ static long decode(int st) {
   return 4000;
 }
 
+// ---------------------------------------------------------------- memory allocation and signals
+// treatAction and the handlers allocate memory (copy of a std::map, std::map::erase, ...), which is not async-signal-safe:
+// a SIGCHLD delivered while its thread is inside malloc/free makes the handler wait for the arena lock held by the code it
+// interrupted.  That hazard of the real code (met: see NOTES.md, F24) is outside the model; so that it cannot hang a run of
+// the harness, a SIGCHLD that arrives while the thread is inside malloc/free/... is counted, not treated, and sent
+// again to the same thread as soon as the allocation function returns.
+static thread_local int alloc_depth = 0;
+static thread_local bool sigchld_deferred = false;
+static inline void alloc_enter() { ++alloc_depth; }
+static inline void alloc_leave() {
+  if (--alloc_depth == 0 && sigchld_deferred) {
+    sigchld_deferred = false;
+    pthread_kill(pthread_self(), SIGCHLD);
+  }
+}
+#ifndef C30_NO_MALLOC_WRAP
+// the whole malloc family of the process goes through here (the definitions of an executable take precedence over libc's)
+extern "C" {
+void* __libc_malloc(size_t);
+void __libc_free(void*);
+void* __libc_calloc(size_t, size_t);
+void* __libc_realloc(void*, size_t);
+void* __libc_memalign(size_t, size_t);
+void* malloc(size_t n) {
+  alloc_enter();
+  void* const p = __libc_malloc(n);
+  alloc_leave();
+  return p;
+}
+void free(void* p) {
+  alloc_enter();
+  __libc_free(p);
+  alloc_leave();
+}
+void* calloc(size_t a, size_t b) {
+  alloc_enter();
+  void* const p = __libc_calloc(a, b);
+  alloc_leave();
+  return p;
+}
+void* realloc(void* q, size_t n) {
+  alloc_enter();
+  void* const p = __libc_realloc(q, n);
+  alloc_leave();
+  return p;
+}
+void* memalign(size_t a, size_t n) {
+  alloc_enter();
+  void* const p = __libc_memalign(a, n);
+  alloc_leave();
+  return p;
+}
+void* aligned_alloc(size_t a, size_t n) { return memalign(a, n); }
+int posix_memalign(void** r, size_t a, size_t n) {
+  void* const p = memalign(a, n);
+  if (p == nullptr) return ENOMEM;
+  *r = p;
+  return 0;
+}
+}
+#endif
+
+// ---------------------------------------------------------------- managers and handlers
+static constexpr int NMGR = 1 << 14;
+static std::atomic<int> mgr_dead[NMGR];
+static std::atomic<int> next_mgr{0};
+
+static constexpr int NPROXY = 1 << 17;
+struct Slot {
+  int serial;
+  alignas(16) unsigned char storage[64];
+};
+static Slot* slots = nullptr;
+static std::atomic<int> next_serial{0};
+
+struct Tombstone final : public tfel::system::SignalHandler {
+  explicit Tombstone(const int s) : serial(s) {}
+  void execute(const int) override { logev(HEXEC_DELETED, serial); }
+  ~Tombstone() override = default;
+  static void operator delete(void*) {}
+  int serial;
+};
+struct Proxy final : public tfel::system::SignalHandler {
+  Proxy(tfel::system::SignalHandler* const o, const int s, const int m) : orig(o), serial(s), mgr(m) {}
+  void execute(const int sig) override {
+    if (mgr >= 0 && mgr_dead[mgr].load() != 0) {
+      // the manager this handler refers to has been destroyed: its body is not run
+      logev(HEXEC_DEAD, serial, mgr);
+      return;
+    }
+    logev(HEXEC_BEGIN, serial, mgr);
+    orig->execute(sig);
+    logev(HEXEC_END, serial, mgr);
+  }
+  ~Proxy() override {
+    logev(HDELETE, serial);
+    delete orig;
+  }
+  // the storage is kept: a tombstone takes the place of the deleted proxy
+  static void operator delete(void* p) {
+    Slot* const s = reinterpret_cast<Slot*>(static_cast<unsigned char*>(p) - offsetof(Slot, storage));
+    new (p) Tombstone(s->serial);
+  }
+  tfel::system::SignalHandler* orig;
+  int serial, mgr;
+};
+static_assert(sizeof(Proxy) <= 64 && sizeof(Tombstone) <= 64, "slot too small");
+
+// ---------------------------------------------------------------- forced schedule of the `lifetime` scenario
+static std::atomic<int> life_active{0};   // a round is running
+static std::atomic<int> cp_used{0};       // the control point of this round has been taken
+static std::atomic<int> cp_reached{0};    // thread 0 is inside treatAction, at the control point
+static std::atomic<int> cp_done{0};       // thread 1 has destroyed its manager
+static std::atomic<int> b_in_remove{0};   // thread 1 has entered removeHandler
+static void control_point(const bool holding_callbacks_mutex) {
+  if (life_active.load() == 0 || me != 0 || hdepth == 0 || cp_used.exchange(1) != 0) return;
+  cp_reached.store(1);
+  if (!holding_callbacks_mutex) {
+    // the handlers have been copied and the mutex released: let thread 1 destroy its manager now (at most 2 s)
+    for (int i = 0; i < 10000 && cp_done.load() == 0; ++i) sleep_us(200);
+  } else {
+    // the mutex is held: thread 1 can only start removing its handler; give it the time to try (at most 100 ms)
+    for (int i = 0; i < 500 && cp_done.load() == 0 && b_in_remove.load() == 0; ++i) sleep_us(200);
+    if (cp_done.load() == 0) sleep_us(500);
+  }
+}
+
+static std::atomic<int> p_owner{-1}, c_owner{-1};
+static std::atomic<int> p_owner_depth{0}, c_owner_depth{0}, c_count{0};
+
+[[noreturn]] static void self_lock(const int which) {
+  logev(SELFLOCK, which, hdepth);
+  dump_log();
+  _exit(96);
+}
+
 extern "C" {
 pid_t __wrap_fork(void) {
+  const pid_t parent = getpid();
   const pid_t p = __real_fork();
+  if (p == 0) {
+    // a child must not outlive the driver (which may leave at once when it detects a self-lock)
+    prctl(PR_SET_PDEATHSIG, SIGKILL);
+    if (getppid() != parent) _exit(125);
+  }
   if (p > 0) {
     handler_reaped[p & (NSLOT - 1)].store(0);
     handler_done[p & (NSLOT - 1)].store(0);
@@ -110,7 +310,7 @@ pid_t __wrap_waitpid(pid_t pid, int* status, int options) {
     errno = saved;
     const pid_t r = __real_waitpid(pid, status, options);
     const int e = errno;
-    logev(WNOHANG_RET, pid, r, (r == pid && status != nullptr) ? decode(*status) : 0);
+    logev(WNOHANG_RET, pid, r, (r > 0 && status != nullptr) ? decode(*status) : 0);
     if (r == pid && pid > 0) {
       handler_reaped[pid & (NSLOT - 1)].store(1);
       pending_done_pid = pid;
@@ -123,6 +323,10 @@ pid_t __wrap_waitpid(pid_t pid, int* status, int options) {
     // hold this call back until a SIGCHLD handler has reaped the child and released processesAccess (at most 4 s:
     // if that never happens the call simply proceeds; nothing is concluded from the delay itself)
     for (int i = 0; i < 20000 && handler_done[pid & (NSLOT - 1)].load() == 0; ++i) sleep_us(200);
+  } else if (cur.delay == 3) {
+    // "a signal interrupts this call once" (EINTR: the handlers are installed without SA_RESTART): SIGALRM in 30 ms
+    itimerval tv{{0, 0}, {0, 30000}};
+    setitimer(ITIMER_REAL, &tv, nullptr);
   } else if (cur.delay == 2) {
     cur.rng ^= cur.rng << 13;
     cur.rng ^= cur.rng >> 7;
@@ -147,23 +351,125 @@ pid_t __wrap_waitpid(pid_t pid, int* status, int options) {
   errno = e;
   return r;
 }
+
+// Signals are blocked while the wrapper does [acquire; note the owner; log] and [log; forget the owner; release], so that a
+// signal handler interrupting this thread sees an owner that is exactly the truth.
 int __wrap_pthread_mutex_lock(pthread_mutex_t* m) {
-  const int r = __real_pthread_mutex_lock(m);
-  if (m == pmutex) logev(PLOCK);
+  if (evlog == nullptr || (m != pmutex && m != cmutex)) return __real_pthread_mutex_lock(m);
+  const int saved = errno;
+  sigset_t all, old;
+  sigfillset(&all);
+  pthread_sigmask(SIG_BLOCK, &all, &old);
+  const long blk = sigismember(&old, SIGCHLD) ? 1 : 0;
+  int r = 0;
+  if (m == pmutex) {
+    logev(PWANT, hdepth, blk);
+    if (p_owner.load() == me) self_lock(0);
+    pthread_sigmask(SIG_SETMASK, &old, nullptr);
+    control_point(true);
+    pthread_sigmask(SIG_BLOCK, &all, nullptr);
+    r = __real_pthread_mutex_lock(m);
+    p_owner.store(me);
+    p_owner_depth.store(hdepth);
+    logev(PLOCK, hdepth, blk);
+  } else {
+    logev(CWANT, hdepth, blk, in_reg ? 1 : (in_rem ? 2 : 0));
+    const bool recursive = (m->__data.__kind & 127) == PTHREAD_MUTEX_RECURSIVE_NP;
+    if (c_owner.load() == me && !(recursive && c_owner_depth.load() == hdepth)) self_lock(1);
+    r = __real_pthread_mutex_lock(m);
+    if (c_count.fetch_add(1) == 0) {
+      c_owner.store(me);
+      c_owner_depth.store(hdepth);
+    }
+    logev(CLOCK, hdepth, blk, c_count.load());
+  }
+  pthread_sigmask(SIG_SETMASK, &old, nullptr);
+  if (hdepth == 0 && ((storm == 1 && m == pmutex) || (storm == 2 && m == cmutex))) {
+    // "a SIGCHLD is delivered to this thread now" (it stays pending if the code has blocked the signals)
+    pthread_kill(pthread_self(), SIGCHLD);
+  }
+  errno = saved;
   return r;
 }
 int __wrap_pthread_mutex_unlock(pthread_mutex_t* m) {
+  if (evlog == nullptr || (m != pmutex && m != cmutex)) return __real_pthread_mutex_unlock(m);
+  const int saved = errno;
+  sigset_t all, old;
+  sigfillset(&all);
+  pthread_sigmask(SIG_BLOCK, &all, &old);
+  int r = 0;
   if (m == pmutex) {
-    logev(PUNLOCK);
+    logev(PUNLOCK, hdepth);
     const int p = pending_done_pid;
     pending_done_pid = 0;
-    const int r = __real_pthread_mutex_unlock(m);
+    p_owner.store(-1);
+    r = __real_pthread_mutex_unlock(m);
     if (p > 0) handler_done[p & (NSLOT - 1)].store(1);
-    return r;
+    pthread_sigmask(SIG_SETMASK, &old, nullptr);
+  } else {
+    logev(CUNLOCK, hdepth, 0, c_count.load());
+    const bool last = c_count.fetch_sub(1) == 1;
+    if (last) c_owner.store(-1);
+    r = __real_pthread_mutex_unlock(m);
+    pthread_sigmask(SIG_SETMASK, &old, nullptr);
+    if (last) {
+      control_point(false);
+      if (callbacks_delay_us > 0) sleep_us(callbacks_delay_us);
+    }
   }
-  const int r = __real_pthread_mutex_unlock(m);
-  if (m == cmutex && callbacks_delay_us > 0) sleep_us(callbacks_delay_us);
+  errno = saved;
   return r;
+}
+
+// the signal handler installed by the code (SignalManager::treatAction) is called through this one
+static void (*real_handler[65])(int);
+static void trampoline(int sig) {
+  const int saved = errno;
+  if (sig == SIGCHLD && alloc_depth > 0 && hdepth == 0) {
+    sigchld_deferred = true;
+    logev(SIG_DEFERRED, sig);
+    errno = saved;
+    return;
+  }
+  ++hdepth;
+  logev(SIG_ENTER, sig);
+  if (sig >= 0 && sig < 65 && real_handler[sig] != nullptr) real_handler[sig](sig);
+  logev(SIG_RETURN, sig);
+  --hdepth;
+  errno = saved;
+}
+int __wrap_sigaction(int sig, const struct sigaction* act, struct sigaction* old) {
+  if (act == nullptr || sig < 0 || sig >= 65 || (act->sa_flags & SA_SIGINFO) || act->sa_handler == SIG_DFL ||
+      act->sa_handler == SIG_IGN) {
+    return __real_sigaction(sig, act, old);
+  }
+  struct sigaction a = *act;
+  real_handler[sig] = act->sa_handler;
+  a.sa_handler = trampoline;
+  return __real_sigaction(sig, &a, old);
+}
+
+std::size_t WRAP(REGISTER_HANDLER)(void* self, int sig, tfel::system::SignalHandler* f, struct sigaction* action) {
+  const int serial = next_serial.fetch_add(1);
+  tfel::system::SignalHandler* h = f;
+  if (!noproxy && serial < NPROXY) {
+    slots[serial].serial = serial;
+    h = new (slots[serial].storage) Proxy(f, serial, cur_mgr);
+  }
+  logev(REG_CALL, cur_mgr, sig, serial);
+  ++in_reg;
+  const std::size_t id = REAL(REGISTER_HANDLER)(self, sig, h, action);
+  --in_reg;
+  logev(REG_RET, static_cast<long>(id), cur_mgr, serial);
+  return id;
+}
+void WRAP(REMOVE_HANDLER)(void* self, std::size_t id) {
+  logev(REM_CALL, static_cast<long>(id), hdepth);
+  if (life_active.load() != 0 && me == 1) b_in_remove.store(1);
+  ++in_rem;
+  REAL(REMOVE_HANDLER)(self, id);
+  --in_rem;
+  logev(REM_RET, static_cast<long>(id), hdepth);
 }
 }
 
@@ -205,9 +511,37 @@ static long run_command(tfel::system::ProcessManager& m, const CmdSpec& c, const
   return verdict;
 }
 
-// Diagnosis only, never a verdict by itself: the real code can deadlock (the SIGCHLD handler locks processesAccess in a
-// thread that already holds it).  If the scenario has not finished after 60 s, ask gdb for the stacks of all threads
-// (written to stderr) and leave with status 97.
+// a ProcessManager whose life is logged; the storage outlives the object
+struct Managed {
+  explicit Managed(const bool stop_on_signals) : k(next_mgr.fetch_add(1)) {
+    using tfel::system::ProcessManager;
+    mem = std::malloc(sizeof(ProcessManager));
+    cur_mgr = k;
+    logev(CTOR_BEGIN, k);
+    m = new (mem) ProcessManager();
+    if (!stop_on_signals) m->stopOnSignals(false);
+    logev(CTOR_END, k);
+    cur_mgr = -1;
+  }
+  void destroy() {
+    using tfel::system::ProcessManager;
+    if (m == nullptr) return;
+    logev(DTOR_BEGIN, k);
+    m->~ProcessManager();
+    logev(DTOR_END, k);
+    if (k < NMGR) mgr_dead[k].store(1);
+    m = nullptr;
+  }
+  ~Managed() { destroy(); }
+  Managed(const Managed&) = delete;
+  Managed& operator=(const Managed&) = delete;
+  tfel::system::ProcessManager* m = nullptr;
+  void* mem = nullptr;  // never given back: a body running for a destroyed manager reads stale, but mapped, memory
+  int k;
+};
+
+// Diagnosis only, never a verdict by itself: if the scenario has not finished after 60 s, ask gdb for the stacks of all
+// threads (written to stderr), print the log and leave with status 97.
 static void* watchdog(void*) {
   timespec t{60, 0};
   while (nanosleep(&t, &t) == -1 && errno == EINTR) {
@@ -220,8 +554,14 @@ static void* watchdog(void*) {
     _exit(127);
   }
   int st = 0;
-  if (p > 0) __real_waitpid(p, &st, 0);
+  for (int i = 0; p > 0 && i < 300 && __real_waitpid(p, &st, WNOHANG) == 0; ++i) sleep_us(100000);  // at most 30 s for gdb
+  if (p > 0) kill(p, SIGKILL);
+  dump_log();
   _exit(97);
+}
+
+static void wait_for(std::atomic<int>& f, const int v) {
+  while (f.load() != v) sleep_us(100);
 }
 
 int main(int argc, char** argv) {
@@ -235,6 +575,29 @@ int main(int argc, char** argv) {
     _exit(99);
   }
   self = argv[0];
+  noproxy = std::getenv("C30_NOPROXY") != nullptr;
+  {
+    void* mem = MAP_FAILED;
+    if (const char* f = std::getenv("C30_LOG")) {
+      const int fd = open(f, O_RDWR | O_CREAT | O_TRUNC, 0644);
+      if (fd >= 0 && ftruncate(fd, sizeof(Log)) == 0) mem = mmap(nullptr, sizeof(Log), PROT_READ | PROT_WRITE, MAP_SHARED, fd, 0);
+      if (fd >= 0) close(fd);
+    }
+    if (mem == MAP_FAILED) mem = mmap(nullptr, sizeof(Log), PROT_READ | PROT_WRITE, MAP_PRIVATE | MAP_ANONYMOUS, -1, 0);
+    if (mem == MAP_FAILED) return 98;
+    evlog = static_cast<Log*>(mem);
+    evlog->n.store(0);
+    slots = static_cast<Slot*>(mmap(nullptr, sizeof(Slot) * NPROXY, PROT_READ | PROT_WRITE, MAP_PRIVATE | MAP_ANONYMOUS, -1, 0));
+    if (slots == MAP_FAILED) return 98;
+  }
+  std::atexit(dump_log);
+  {
+    struct sigaction sa;
+    std::memset(&sa, 0, sizeof(sa));
+    sa.sa_handler = [](int) {};  // SIGALRM only interrupts the system call in progress (scenarios `interrupted`)
+    sigemptyset(&sa.sa_mask);
+    __real_sigaction(SIGALRM, &sa, nullptr);
+  }
   {
     sigset_t all, old;
     sigfillset(&all);
@@ -243,10 +606,8 @@ int main(int argc, char** argv) {
     pthread_create(&th, nullptr, watchdog, nullptr);
     pthread_sigmask(SIG_SETMASK, &old, nullptr);
   }
-  evlog = static_cast<Event*>(std::calloc(LOGMAX, sizeof(Event)));
-  pmutex = processesAccess.native_handle();
-  cmutex = callbacksAccess.native_handle();
-  int nthreads = 1, churn = 0;
+  int nthreads = 1, churn = 0, lifetime = 0;
+  bool stale = false, terminate = false;
   std::vector<CmdSpec> cmds;
   std::string line;
   while (std::getline(std::cin, line)) {
@@ -256,48 +617,117 @@ int main(int argc, char** argv) {
     if (w == "threads") is >> nthreads;
     else if (w == "churn") is >> churn;
     else if (w == "callbacks_delay_us") is >> callbacks_delay_us;
-    else if (w == "cmd") {
+    else if (w == "lifetime") is >> lifetime;
+    else if (w == "stale") stale = true;
+    else if (w == "terminate") terminate = true;
+    else if (w == "storm") {
+      std::string x;
+      is >> x;
+      storm = x == "P" ? 1 : x == "C" ? 2 : 0;
+    } else if (w == "cmd") {
       CmdSpec c;
       std::string d, p;
       is >> c.thread >> c.code >> c.ms >> d >> p;
-      c.delay = d == "handler-first" ? 1 : d == "random" ? 2 : 0;
+      c.delay = d == "handler-first" ? 1 : d == "random" ? 2 : d == "interrupted" ? 3 : 0;
       c.poison = p == "exit0" ? 1 : p == "exit3" ? 2 : p == "sig9" ? 3 : p == "unknown" ? 4 : p == "stopped" ? 5 : 0;
       cmds.push_back(c);
     }
   }
-  {
-    using tfel::system::ProcessManager;
-    std::vector<std::unique_ptr<ProcessManager>> managers;
-    if (!churn) {
-      for (int i = 0; i != nthreads; ++i) {
-        managers.emplace_back(new ProcessManager());
-        managers.back()->stopOnSignals(false);
+  using tfel::system::ProcessManager;
+  if (lifetime > 0) {
+    // thread 0 (this one) takes the SIGCHLD signals; thread 1 has them blocked
+    std::atomic<int> phase{0};  // 0: idle, 1: thread 1 builds its manager, 2: built, 3: leave
+    std::thread other([&] {
+      me = 1;
+      sigset_t s;
+      sigemptyset(&s);
+      sigaddset(&s, SIGCHLD);
+      pthread_sigmask(SIG_BLOCK, &s, nullptr);
+      for (;;) {
+        while (phase.load() == 0 || phase.load() == 2) sleep_us(100);
+        if (phase.load() == 3) return;
+        Managed b(false);
+        phase.store(2);
+        wait_for(cp_reached, 1);  // thread 0 is inside treatAction
+        b.destroy();
+        cp_done.store(1);
+        while (life_active.load() != 0) sleep_us(100);
       }
+    });
+    for (int r = 0; r != lifetime; ++r) {
+      Managed a(false);
+      cp_used.store(0);
+      cp_reached.store(0);
+      cp_done.store(0);
+      b_in_remove.store(0);
+      phase.store(1);
+      wait_for(phase, 2);
+      life_active.store(1);
+      pthread_kill(pthread_self(), SIGCHLD);  // "a SIGCHLD is delivered to thread 0 now"
+      cp_reached.store(1);                    // (if the handler did not reach a control point)
+      wait_for(cp_done, 1);
+      phase.store(0);
+      life_active.store(0);
+      a.destroy();
+    }
+    phase.store(3);
+    other.join();
+  }
+  if (stale) {
+    {
+      Managed m(true);
+    }
+    pthread_kill(pthread_self(), SIGTERM);  // nobody should be listening any more
+    logev(NOTE, 1);                         // still alive
+  }
+  if (terminate) {
+    Managed m(true);
+    const auto pid = m.m->createProcess(self + " --child 3000 0", "", "");
+    logev(NOTE, 2, pid);
+    pthread_kill(pthread_self(), SIGTERM);  // ProcessManager::terminateHandler: kills the child, std::exit(EXIT_FAILURE)
+    logev(NOTE, 3);                         // not reached
+  }
+  if (!cmds.empty()) {
+    std::vector<std::unique_ptr<Managed>> managers;
+    if (!churn) {
+      for (int i = 0; i != nthreads; ++i) managers.emplace_back(new Managed(false));
     }
     auto work = [&](const int t) {
-      me = t;
+      me = nthreads == 1 ? 0 : t + 1;
       for (size_t i = 0; i != cmds.size(); ++i) {
         if (cmds[i].thread != t) continue;
         if (churn) {
-          ProcessManager m;  // as TestLauncher::execute does: one manager per command, destroyed at once
-          run_command(m, cmds[i], static_cast<long>(i));
+          Managed m(false);  // as TestLauncher::execute does: one manager per command, destroyed at once
+          run_command(*m.m, cmds[i], static_cast<long>(i));
         } else {
-          run_command(*managers[static_cast<size_t>(t)], cmds[i], static_cast<long>(i));
+          run_command(*managers[static_cast<size_t>(t)]->m, cmds[i], static_cast<long>(i));
         }
       }
     };
     if (nthreads == 1) {
       work(0);
     } else {
+      // this thread only creates and joins the workers: it takes no signal meanwhile (pthread_create allocates memory)
+      sigset_t all, old;
+      sigfillset(&all);
+      pthread_sigmask(SIG_BLOCK, &all, &old);
       std::vector<std::thread> ths;
-      for (int t = 0; t != nthreads; ++t) ths.emplace_back(work, t);
+      for (int t = 0; t != nthreads; ++t) {
+        ths.emplace_back([&work, &old, t] {
+          me = t + 1;  // before any signal can be taken by this thread
+          pthread_sigmask(SIG_SETMASK, &old, nullptr);
+          work(t);
+          sigset_t every;
+          sigfillset(&every);
+          pthread_sigmask(SIG_BLOCK, &every, nullptr);  // the end of a thread frees memory inside libc
+        });
+      }
       for (auto& th : ths) th.join();
+      pthread_sigmask(SIG_SETMASK, &old, nullptr);
     }
+    me = 0;
+    storm = 0;
   }
-  const long n = nlog.load();
-  for (long i = 0; i < n && i < LOGMAX; ++i) {
-    if (evlog[i].kind <= 0) continue;
-    std::printf("%d %s %ld %ld %ld\n", evlog[i].tid, kind_names[evlog[i].kind - 1], evlog[i].a, evlog[i].b, evlog[i].c);
-  }
+  dump_log();
   return 0;
 }
